@@ -1,5 +1,5 @@
 # C15 — classical multipole interactions: symmetry, point-charge limit, translation, field = dE/dmu, Thole tensor (E2 + algebra)
-import sys, os, json, time, itertools, random, math
+import math, sys, os, json, time, itertools, random, math
 from fractions import Fraction as F
 import z3
 import common, llir, symx, models, smt
@@ -29,7 +29,7 @@ def check_c15(ck, tier, replay=None):
     ck.units += ['xtp/src/libxtp/eeinteractor.cc (VSiteA<4>, VSiteA<9>, CalcStaticEnergy_site, ApplyStaticField_site, FillTholeInteraction)', 'xtp/include/votca/xtp/staticsite.h, polarsite.h accessors']
     ck.functions.update(common.ir_func_sizes(mod, r'^@h_|eeInteractor'))
     ck.assumptions += ['doubles as exact reals; 1/R through the canonical radical of |r|^2; sqrt(3) (folded by the compiler) as the radical with square 3; exp as a canonical symbol', 'site objects are raw storage with position, rank and the nine spherical components set by the harness',
-                       'distinct positions (R > 0); ranks 0,1,2 per site', 'convergence to point-charge clusters (a limit) and general rotations are outside']
+                       'distinct positions (R > 0); ranks 0,1,2 per site', 'rotations: the three coordinate-axis rotations with symbolic angle (generators of SO(3)) about the origin, applied to both sites by the real StaticSite::Rotate, after an arbitrary common translation; convergence to point-charge clusters (a limit) is replaced by the exact Cartesian-expansion oracle']
     validate(ck, mod)
     parsed = {}; found = []
     x = [z3.Real('x%d' % i) for i in range(3)]; t = [z3.Real('t%d' % i) for i in range(3)]
@@ -61,7 +61,23 @@ def check_c15(ck, tier, replay=None):
                 R = A.rf(models.UF['sqrt'](x[0] * x[0] + x[1] * x[1] + x[2] * x[2]))
                 A.prove_equal(ck, 'two charges: E = q1 q2 / R', A.rf(e1), A.rf(QA[0]) * A.rf(QB[0]) / R, pc1, TO)
             ck.sample({'unit': 'CalcStaticEnergy_site ranks (0,0)', 'energy': str(eAB[0][1])[:200]})
-        # signed-axis rotations of positions with the moments left alone would need StaticSite::Rotate: outside in this round
+        # rotation: both sites (positions and moments) rotated by the real StaticSite::Rotate about each coordinate axis with symbolic (cos, sin)
+        rc_, rs_ = z3.Reals('rc rs')
+        for axis in range(3):
+            if tier == 'quick' and (rA, rB) in ((2, 2),) and axis != 2: continue
+            c_, s_ = rc_, rs_
+            Rm = {2: [c_, -s_, 0, s_, c_, 0, 0, 0, 1], 0: [1, 0, 0, 0, c_, -s_, 0, s_, c_], 1: [c_, 0, s_, 0, 1, 0, -s_, 0, c_]}[axis]
+            Rm = [z3.RealVal(v) if isinstance(v, int) else v for v in Rm]
+            def bodyr(it):
+                it.assume(c_ * c_ + s_ * s_ == 1)
+                a = alloc_doubles(it, 'pA', t); qa_ = alloc_doubles(it, 'QA', qa); b = alloc_doubles(it, 'pB', [x[i] + t[i] for i in range(3)]); qb_ = alloc_doubles(it, 'QB', qb); r_ = alloc_doubles(it, 'R', Rm)
+                return it.call('@h_energy_rot', [a, qa_, rA, b, qb_, rB, r_])
+            resr, _ = explore(mod, models.all_models(), bodyr, parsed=parsed)
+            for (pc1, e1), (itr, e2) in itertools.product(eT, resr):
+                pc = pc1 + list(itr.pc)
+                A = Algebra(nonneg_check=nonneg(pc)); A.relation('rc', A.rf(1 - s_ * s_))
+                try: A.prove_equal(ck, 'ranks (%d,%d): energy unchanged when both sites, with their moments, are rotated about the %s axis (StaticSite::Rotate, symbolic angle)' % (rA, rB, 'xyz'[axis]), A.rf(e1), A.rf(e2), pc, TO)
+                except TermCap as e: ck.inconc('ranks (%d,%d) rotation: %s' % (rA, rB, e))
     # ---- independent oracle: the Cartesian multipole expansion, E = [qB + muB.grad + Theta_B:grad grad/3][qA - muA.grad + Theta_A:grad grad/3] (1/R),
     #      with the traceless quadrupoles obtained from the library's own CalculateCartesianMultipole and the derivatives of 1/R taken by AD
     def cart(Q, rank):
@@ -205,6 +221,16 @@ def replay_native(name, mdl):
     if 'E(A,B) = E(B,A)' in clause:
         e1 = E([0.0] * 3, qa, ra, x, qb, rb); e2 = E(x, qb, rb, [0.0] * 3, qa, ra)
         return abs(e1 - e2) > 1e-9 * max(1, abs(e1), abs(e2)), 'E(A,B) = %.12g, E(B,A) = %.12g at r = %s' % (e1, e2, x)
+    if 'rotated about' in clause:
+        ax = re.search(r'about the (\w) axis', clause).group(1); c = g('rc', 0.6); s_ = g('rs', 0.8); n = math.hypot(c, s_) or 1.0; c, s_ = c / n, s_ / n
+        R = {'z': [c, -s_, 0, s_, c, 0, 0, 0, 1], 'x': [1, 0, 0, 0, c, -s_, 0, s_, c], 'y': [c, 0, s_, 0, 1, 0, -s_, 0, c]}[ax]
+        tt = [g('t%d' % i, 0.3) for i in range(3)]
+        src = os.path.join(common.workdir(), 'c15rot.cc')
+        open(src, 'w').write('#include "%s"\n#include <cstdio>\nint main(){ double pa[3],qa[9],pb[3],qb[9],R[9]; long ra,rb; for(int i=0;i<3;i++) scanf("%%la",&pa[i]); for(int i=0;i<9;i++) scanf("%%la",&qa[i]); scanf("%%ld",&ra); for(int i=0;i<3;i++) scanf("%%la",&pb[i]); for(int i=0;i<9;i++) scanf("%%la",&qb[i]); scanf("%%ld",&rb); for(int i=0;i<9;i++) scanf("%%la",&R[i]); printf("%%a %%a\\n", h_energy(pa,qa,ra,pb,qb,rb), h_energy_rot(pa,qa,ra,pb,qb,rb,R)); }\n' % common.harness_path(HARNESS))
+        binr = common.native_build([src], 'C15_native_rot', extra=['-I' + common.REPO, '-I/usr/include/hdf5/serial'], libs=common.votca_libs(csg=False) + ['-lhdf5_serial_cpp', '-lhdf5_serial'])
+        rc, so, se = common.run_native(binr, ' '.join(float(v).hex() for v in tt + qa) + ' %d ' % ra + ' '.join(float(v).hex() for v in [x[i] + tt[i] for i in range(3)] + qb) + ' %d ' % rb + ' '.join(float(v).hex() for v in R) + '\n')
+        e1, e2 = [float.fromhex(v) for v in so.split()]
+        return abs(e1 - e2) > 1e-9 * max(1, abs(e1), abs(e2)), 'native: E = %.12g, after StaticSite::Rotate of both sites about %s by (cos, sin) = (%.6g, %.6g): %.12g' % (e1, ax, c, s_, e2)
     if 'translation' in clause:
         tt = [g('t%d' % i, 0.7) for i in range(3)]
         e1 = E([0.0] * 3, qa, ra, x, qb, rb); e2 = E(tt, qa, ra, [x[i] + tt[i] for i in range(3)], qb, rb)
